@@ -334,6 +334,7 @@ func runWitness(out string, args map[string]string) {
 	g := common.Atoi(args["--g"], 8)
 	reps := common.Atoi(args["--reps"], 20)
 	mism := 0
+	var first atomic.Pointer[string]
 	for rep := 0; rep < reps; rep++ {
 		fmt.Fprintf(os.Stderr, "C19-ROUND witness rep=%d\n", rep)
 		eb := newEnv(string(srcb))
@@ -354,6 +355,8 @@ func runWitness(out string, args map[string]string) {
 					j := (i + t) % len(fns)
 					if got := safeCall(fns[j], e); got != base[j] {
 						bad.Add(1)
+						d := fmt.Sprintf("call %q: sequential %q, concurrent %q", fns[j].Desc, trunc(base[j]), trunc(got))
+						first.CompareAndSwap(nil, &d)
 					}
 				}
 			}(t)
@@ -362,6 +365,9 @@ func runWitness(out string, args map[string]string) {
 		mism += int(bad.Load())
 	}
 	fmt.Printf("witness reps=%d g=%d mismatches=%d\n", reps, g, mism)
+	if d := first.Load(); d != nil {
+		fmt.Printf("first-mismatch %s\n", strings.ReplaceAll(*d, "\n", "\\n"))
+	}
 }
 
 // witnessCallAt understands "lookup PATH", "syntax OPTS @PATH", "fields OPTS @PATH", "default PATH".
